@@ -86,12 +86,12 @@ class C13(VectorEngine):
     assumptions = ["the state is read with inspect(); a key is identified by its `==` class (the spelling kept after an overwrite is not constrained)",
                    "values are small integers; nested maps and multi-key get/set are not generated",
                    "a failing action (duplicate key in a literal) fails the whole stylesheet: such a run is observed as one error"]
-    mc_inv = {"quick": [("MC_Maps", "MC_Maps_C13_inv.cfg", {"workers": 6})],
-              "thorough": [("MC_Maps", "MC_Maps_C13_invt.cfg", {"workers": 6, "timeout": 1500})]}
+    mc_inv = {"quick": [("MC_Maps", "MC_Maps_C13_inv.cfg", {"workers": 4})],
+              "thorough": [("MC_Maps", "MC_Maps_C13_invt.cfg", {"workers": 4, "timeout": 1500})]}
     mc_runs = {
-        "quick": [("MC_Maps", "MC_Maps_C13_a.cfg", {"workers": 6}), ("MC_Maps", "MC_Maps_C13_b.cfg", {"workers": 6})],
-        "thorough": [("MC_Maps", "MC_Maps_C13_a.cfg", {"workers": 6}), ("MC_Maps", "MC_Maps_C13_b.cfg", {"workers": 6}),
-                     ("MC_Maps", "MC_Maps_C13_t.cfg", {"workers": 6, "timeout": 1500})],
+        "quick": [("MC_Maps", "MC_Maps_C13_a.cfg", {"workers": 4}), ("MC_Maps", "MC_Maps_C13_b.cfg", {"workers": 4})],
+        "thorough": [("MC_Maps", "MC_Maps_C13_a.cfg", {"workers": 4}), ("MC_Maps", "MC_Maps_C13_b.cfg", {"workers": 4}),
+                     ("MC_Maps", "MC_Maps_C13_t.cfg", {"workers": 4, "timeout": 1500})],
     }
     random_n = {"quick": 400, "thorough": 5000}
 
